@@ -174,6 +174,48 @@ func (e *Exec) yield() {
 	g.ready = nil
 }
 
+// preemptPoint: bounded schedule exploration (vpPreempt(k)). At every synchronisation
+// operation (mutex lock/unlock, atomic operation, channel operation) the running goroutine
+// may be preempted in favour of any other runnable goroutine; which one (or none) is a free
+// choice, so every schedule with at most k preemptions is a path of its own.
+func (e *Exec) preemptPoint() {
+	if e.preemptBudget <= 0 || e.aborting || e.cur == nil {
+		return
+	}
+	g := e.cur
+	var cands []*G
+	for _, o := range e.gs {
+		if o.done || o == g {
+			continue
+		}
+		if o.ready == nil || o.ready() {
+			cands = append(cands, o)
+		}
+	}
+	if len(cands) == 0 {
+		return
+	}
+	k := e.freeChoice(e.freshName("preempt"), len(cands)+1)
+	if k == 0 {
+		return
+	}
+	e.preemptBudget--
+	e.preemptions++
+	next := cands[k-1]
+	g.ready = func() bool { return true }
+	e.cur = next
+	next.signal()
+	<-g.wake
+	if e.aborting {
+		if g.id == 0 {
+			e.raiseAbort()
+		}
+		panic(pathEnd{endAbort, ""})
+	}
+	e.cur = g
+	g.ready = nil
+}
+
 // killGoroutines unwinds every goroutine that is still alive at the end of a path.
 func (e *Exec) killGoroutines() {
 	e.aborting = true
@@ -300,6 +342,7 @@ func (e *Exec) tryRecv(ch *Chan) (v Value, ok bool, done bool) {
 }
 
 func (e *Exec) chanSend(ch *Chan, v Value) {
+	e.preemptPoint()
 	if ch == nil {
 		e.block(func() bool { return false }, "send on nil channel")
 	}
@@ -315,6 +358,7 @@ func (e *Exec) chanSend(ch *Chan, v Value) {
 }
 
 func (e *Exec) chanRecv(ch *Chan, commaOk bool, elemT types.Type) Value {
+	e.preemptPoint()
 	if ch == nil {
 		e.block(func() bool { return false }, "receive from nil channel")
 	}
@@ -364,6 +408,7 @@ func (e *Exec) chanClose(ch *Chan) {
 
 // selectOp implements ssa.Select in the sequential channel model.
 func (e *Exec) selectOp(fr *frame, instr *ssa.Select) Value {
+	e.preemptPoint()
 	type cs struct {
 		ch   *Chan
 		send bool
